@@ -142,6 +142,10 @@ def _one_mono(arg):
             continue
         break
     gts = [r.ground_truth_object for r in results if r.ground_truth_object is not None]
+    # instance tokens: some ground truths share one (the same instance annotated twice - two cameras, a split annotation); every one of them
+    # is a ground truth of its own for the TP / FN decisions
+    for idx_, o_ in enumerate(gts):
+        o_.uuid = "inst-%d" % (idx_ % max(1, (2 * len(gts)) // 3))
     g = max(g, sum(1 for o in gts if o.semantic_label.label == LB))
     ntp, nfn, ap6, aph6, map6, subset = [], [], [], [], [], []
     prev = None
